@@ -529,6 +529,12 @@ def main(argv):
                 fns.append("%s:%s%s" % (u, it["name"], (" [" + it["split_arm"] + "]") if it.get("split_arm") else ""))
         for k, v in (res.rules.get("counts") or {}).items():
             rule_counts[k] = rule_counts.get(k, 0) + v
+    # obligations that are recorded known findings (genuine defects, printed as KNOWN-FINDING) are not part of the
+    # proof claim: they are counted apart, so that obligations == discharged states exactly what is proved
+    kf_tags = sorted(set(x[1] for x in seen if isinstance(x, tuple) and x[0] == "k"))
+    kf_obl = {t: {"obligation_lines": cl["per_tag"][t]["lines"], "discharged": cl["per_tag"][t]["discharged"]} for t in kf_tags if t in cl["per_tag"]}
+    n_obl_claimed = cl["obligations"] - sum(v["obligation_lines"] for v in kf_obl.values())
+    n_dis_claimed = cl["discharged"] - sum(v["discharged"] for v in kf_obl.values())
     per_tag_out = {t: {"obligation_lines": e["lines"], "discharged": e["discharged"], "units": sorted(e["units"]), "functions": sorted(e["fns"])[:12], "implicit": bool(e.get("implicit"))} for t, e in sorted(cl["per_tag"].items())}
     ev = {
         "property_id": pid,
@@ -536,8 +542,9 @@ def main(argv):
         "seed": seed,
         "level": P.get("level", "proof"),
         "coverage": {
-            "obligations": cl["obligations"],
-            "discharged": cl["discharged"] if not undecided else min(cl["discharged"], cl["obligations"]),
+            "obligations": n_obl_claimed,
+            "discharged": n_dis_claimed,
+            "known_finding_obligations": kf_obl,
             "checker_cmd": "; ".join(r.cmd for r in results.values() if r.cmd),
             "trusted_base": trusted_base(results),
             "back_end": "Verus %s (Z3), single-file mode, one query per function (per case-split copy for the handler loops)" % zv.verus_version(),
@@ -556,7 +563,7 @@ def main(argv):
             "evaluations": (sum((i.get("checks") or 1) for i in kani_info["harnesses"].values()) if kani_info else cl["obligations"]),
             "distinct_nontrivial": (len(kani_info["harnesses"]) if kani_info and P.get("level") == "model_checking" else max(2, len(cl["per_tag"]))),
             "rule": ("one evaluation = one CBMC property of a Kani harness over the stated bound; distinct = harnesses" if kani_info and P.get("level") == "model_checking" else "one evaluation = one tagged obligation line; distinct = tags"),
-            "explanation": "obligations = tagged contract clauses, loop invariants and injected asserts carrying a tag of this property in the assembled units (a clause repeated in N case-split copies counts N times); discharged = those with no Verus diagnostic on their line in a function that did not hit the resource limit",
+            "explanation": "obligations = tagged contract clauses, loop invariants and injected asserts carrying a tag of this property in the assembled units (a clause repeated in N case-split copies counts N times); discharged = those with no Verus diagnostic on their line in a function that did not hit the resource limit; the clauses of recorded known findings (known_finding_obligations: they fail, as recorded in known_findings.json, and are printed as KNOWN-FINDING) are not counted in either number",
         },
         "assumptions": [props.ASSUME[a] for a in P.get("assume", [])] + P.get("not_covered", []),
         "wall_s": round(time.time() - t0, 2),
@@ -583,5 +590,5 @@ def main(argv):
         for u in undecided[:12]:
             print("UNDECIDED: %s" % u)
         return 2
-    print("%s: %d/%d obligations discharged in %d unit(s), %.1fs" % (pid, cl["discharged"], cl["obligations"], len(units), time.time() - t0))
+    print("%s: %d/%d obligations discharged in %d unit(s), %.1fs%s" % (pid, n_dis_claimed, n_obl_claimed, len(units), time.time() - t0, (" (+%d clause line(s) of recorded known findings, failing as recorded)" % sum(v["obligation_lines"] for v in kf_obl.values())) if kf_obl else ""))
     return 0
